@@ -54,7 +54,8 @@ function getPathAndLine (sourceMap, filename, line, column) {
       const filePath = getFilePathFromName(filename)
       const { originalSource, originalLine, originalColumn } = sourceMap.findEntry(line - 1, column - 1)
       return {
-        path: path.join(filePath, originalSource),
+        // an absolute source is not relative to the folder of the file
+        path: path.isAbsolute(originalSource) ? originalSource : path.join(filePath, originalSource),
         line: originalLine + 1,
         column: originalColumn + 1
       }
